@@ -257,9 +257,11 @@ fn coverage_of(op: &Op, ctm: &Mat, w: i32, h: i32) -> Option<Vec<u8>> {
     };
     match op {
         Op::Fill { path, opts, .. } => Some(observe(&|dt, o| dt.fill(&mk::build_path(path), &white(), o), opts.aa)),
-        Op::FillRect { rect, opts, .. } => Some(observe(&|dt, o| dt.fill_rect(rect[0].0, rect[1].0, rect[2].0, rect[3].0, &white(), o), opts.aa)),
-        Op::DrawImageAt { x, y, img, opts } => Some(observe(&|dt, o| dt.fill_rect(x.0, y.0, img.w as f32, img.h as f32, &white(), o), opts.aa)),
-        Op::DrawImageSized { w: rw, h: rh, x, y, opts, .. } => Some(observe(&|dt, o| dt.fill_rect(x.0, y.0, rw.0, rh.0, &white(), o), opts.aa)),
+        // rectangles: through the general route (a rectangular path), never through the
+        // integer fast path of fill_rect, whose equivalence is what C14 is about
+        Op::FillRect { rect, opts, .. } => Some(observe(&|dt, o| dt.fill(&rect_path(rect[0].0, rect[1].0, rect[2].0, rect[3].0), &white(), o), opts.aa)),
+        Op::DrawImageAt { x, y, img, opts } => Some(observe(&|dt, o| dt.fill(&rect_path(x.0, y.0, img.w as f32, img.h as f32), &white(), o), opts.aa)),
+        Op::DrawImageSized { w: rw, h: rh, x, y, opts, .. } => Some(observe(&|dt, o| dt.fill(&rect_path(x.0, y.0, rw.0, rh.0), &white(), o), opts.aa)),
         Op::Stroke { path, style, opts, .. } => Some(observe(&|dt, o| dt.stroke(&mk::build_path(path), &white(), &mk::build_style(style), o), opts.aa)),
         Op::Mask { x, y, w: mw, h: mh, data, .. } => {
             if singular {
